@@ -1,7 +1,7 @@
 /* Event log shared by unit.cpp (C++) and contract.c (C): capacity and event kinds. */
 #ifndef EVALSOL_EVENTS_H
 #define EVALSOL_EVENTS_H
-#define NEV 24
+#define NEV 20
 /* event kinds */
 enum
 {
